@@ -1,0 +1,185 @@
+//go:build verif
+
+package tbtc
+
+import (
+	"context"
+	"crypto/ecdsa"
+	"math/big"
+	"time"
+
+	"github.com/ipfs/go-log/v2"
+
+	"github.com/keep-network/keep-core/pkg/bitcoin"
+	"github.com/keep-network/keep-core/pkg/protocol/group"
+	"github.com/keep-network/keep-core/pkg/tecdsa"
+)
+
+// Verification hook (build tag verif): re-exports existing identifiers only.
+
+const (
+	VerifC46DepositSweepProposalValidityBlocks              = depositSweepProposalValidityBlocks
+	VerifC46DepositSweepSigningTimeoutSafetyMarginBlocks    = depositSweepSigningTimeoutSafetyMarginBlocks
+	VerifC46DepositSweepBroadcastTimeout                    = depositSweepBroadcastTimeout
+	VerifC46DepositSweepBroadcastCheckDelay                 = depositSweepBroadcastCheckDelay
+	VerifC46RedemptionProposalValidityBlocks                = redemptionProposalValidityBlocks
+	VerifC46RedemptionSigningTimeoutSafetyMarginBlocks      = redemptionSigningTimeoutSafetyMarginBlocks
+	VerifC46RedemptionBroadcastTimeout                      = redemptionBroadcastTimeout
+	VerifC46RedemptionBroadcastCheckDelay                   = redemptionBroadcastCheckDelay
+	VerifC46MovingFundsProposalValidityBlocks               = movingFundsProposalValidityBlocks
+	VerifC46MovingFundsSigningTimeoutSafetyMarginBlocks     = movingFundsSigningTimeoutSafetyMarginBlocks
+	VerifC46MovingFundsBroadcastTimeout                     = movingFundsBroadcastTimeout
+	VerifC46MovingFundsBroadcastCheckDelay                  = movingFundsBroadcastCheckDelay
+	VerifC46MovingFundsCommitmentConfirmationBlocks         = movingFundsCommitmentConfirmationBlocks
+	VerifC46MovedFundsSweepProposalValidityBlocks           = movedFundsSweepProposalValidityBlocks
+	VerifC46MovedFundsSweepSigningTimeoutSafetyMarginBlocks = movedFundsSweepSigningTimeoutSafetyMarginBlocks
+	VerifC46MovedFundsSweepBroadcastTimeout                 = movedFundsSweepBroadcastTimeout
+	VerifC46MovedFundsSweepBroadcastCheckDelay              = movedFundsSweepBroadcastCheckDelay
+	VerifC46HeartbeatTotalProposalValidityBlocks            = heartbeatTotalProposalValidityBlocks
+	VerifC46HeartbeatInactivityClaimValidityBlocks          = heartbeatInactivityClaimValidityBlocks
+	VerifC46HeartbeatTimeoutSafetyMarginBlocks              = heartbeatTimeoutSafetyMarginBlocks
+	VerifC46HeartbeatSigningMinimumActiveMembers            = heartbeatSigningMinimumActiveMembers
+	VerifC46HeartbeatConsecutiveFailureThreshold            = heartbeatConsecutiveFailureThreshold
+	VerifC46SigningAttemptsLimit                            = signingAttemptsLimit
+	VerifC46SigningAttemptAnnouncementDelayBlocks           = signingAttemptAnnouncementDelayBlocks
+	VerifC46SigningAttemptAnnouncementActiveBlocks          = signingAttemptAnnouncementActiveBlocks
+	VerifC46SigningAttemptMaximumProtocolBlocks             = signingAttemptMaximumProtocolBlocks
+	VerifC46SigningAttemptCoolDownBlocks                    = signingAttemptCoolDownBlocks
+)
+
+func VerifC46SigningAttemptMaximumBlocks() uint { return signingAttemptMaximumBlocks() }
+
+// VerifC46ActionParams is what the real action constructors wire into the
+// action structs.
+type VerifC46ActionParams struct {
+	SigningTimeoutSafetyMarginBlocks uint64
+	BroadcastTimeout                 time.Duration
+	BroadcastCheckDelay              time.Duration
+	StartBlock                       uint64
+	ExpiryBlock                      uint64
+}
+
+// VerifC46NewActionParams calls the real constructor of the given action
+// ("depositSweep", "redemption", "movingFunds", "movedFundsSweep") and
+// returns the timing fields of the constructed action.
+func VerifC46NewActionParams(action string, start, expiry uint64) *VerifC46ActionParams {
+	switch action {
+	case "depositSweep":
+		a := newDepositSweepAction(nil, nil, nil, wallet{}, nil, nil, start, expiry, nil)
+		return &VerifC46ActionParams{a.signingTimeoutSafetyMarginBlocks, a.broadcastTimeout, a.broadcastCheckDelay, a.proposalProcessingStartBlock, a.proposalExpiryBlock}
+	case "redemption":
+		a := newRedemptionAction(nil, nil, nil, wallet{}, nil, nil, start, expiry, nil)
+		return &VerifC46ActionParams{a.signingTimeoutSafetyMarginBlocks, a.broadcastTimeout, a.broadcastCheckDelay, a.proposalProcessingStartBlock, a.proposalExpiryBlock}
+	case "movingFunds":
+		a := newMovingFundsAction(nil, nil, nil, wallet{}, nil, nil, start, expiry, nil)
+		return &VerifC46ActionParams{a.signingTimeoutSafetyMarginBlocks, a.broadcastTimeout, a.broadcastCheckDelay, a.proposalProcessingStartBlock, a.proposalExpiryBlock}
+	case "movedFundsSweep":
+		a := newMovedFundsSweepAction(nil, nil, nil, wallet{}, nil, nil, start, expiry, nil)
+		return &VerifC46ActionParams{a.signingTimeoutSafetyMarginBlocks, a.broadcastTimeout, a.broadcastCheckDelay, a.proposalProcessingStartBlock, a.proposalExpiryBlock}
+	}
+	return nil
+}
+
+type verifC46BatchSigner struct {
+	fn func(ctx context.Context, messages []*big.Int, startBlock uint64) ([]*tecdsa.Signature, error)
+}
+
+func (s *verifC46BatchSigner) signBatch(
+	ctx context.Context,
+	messages []*big.Int,
+	startBlock uint64,
+) ([]*tecdsa.Signature, error) {
+	return s.fn(ctx, messages, startBlock)
+}
+
+// VerifC46SignTransaction runs the real walletTransactionExecutor.signTransaction
+// with the given signing function and block waiter.
+func VerifC46SignTransaction(
+	walletPublicKey *ecdsa.PublicKey,
+	unsignedTx *bitcoin.TransactionBuilder,
+	signingStartBlock uint64,
+	signingTimeoutBlock uint64,
+	signBatchFn func(ctx context.Context, messages []*big.Int, startBlock uint64) ([]*tecdsa.Signature, error),
+	waitForBlock func(context.Context, uint64) error,
+) error {
+	wte := newWalletTransactionExecutor(
+		nil,
+		wallet{publicKey: walletPublicKey},
+		&verifC46BatchSigner{signBatchFn},
+		waitForBlock,
+	)
+	_, err := wte.signTransaction(
+		log.Logger("verif-c46"),
+		unsignedTx,
+		signingStartBlock,
+		signingTimeoutBlock,
+	)
+	return err
+}
+
+type verifC46HeartbeatSigner struct {
+	fn func(ctx context.Context, message *big.Int, startBlock uint64) (active, inactive int, err error)
+}
+
+func (s *verifC46HeartbeatSigner) sign(
+	ctx context.Context,
+	message *big.Int,
+	startBlock uint64,
+) (*tecdsa.Signature, *signingActivityReport, uint64, error) {
+	active, inactive, err := s.fn(ctx, message, startBlock)
+	if err != nil {
+		return nil, nil, 0, err
+	}
+	report := &signingActivityReport{}
+	for i := 0; i < active; i++ {
+		report.activeMembers = append(report.activeMembers, group.MemberIndex(i+1))
+	}
+	for i := 0; i < inactive; i++ {
+		report.inactiveMembers = append(report.inactiveMembers, group.MemberIndex(active+i+1))
+	}
+	return &tecdsa.Signature{R: big.NewInt(1), S: big.NewInt(2), RecoveryID: 0}, report, startBlock, nil
+}
+
+type verifC46ClaimExecutor struct {
+	fn func(ctx context.Context, inactive int) error
+}
+
+func (c *verifC46ClaimExecutor) claimInactivity(
+	ctx context.Context,
+	inactiveMembersIndexes []group.MemberIndex,
+	heartbeatFailed bool,
+	sessionID *big.Int,
+) error {
+	return c.fn(ctx, len(inactiveMembersIndexes))
+}
+
+// VerifC46HeartbeatExecute runs the real heartbeatAction.execute() `rounds`
+// times (one failure counter, as the node keeps one) with the given fakes.
+func VerifC46HeartbeatExecute(
+	chain Chain,
+	walletPublicKey *ecdsa.PublicKey,
+	rounds int,
+	startBlock, expiryBlock uint64,
+	signFn func(ctx context.Context, message *big.Int, startBlock uint64) (active, inactive int, err error),
+	claimFn func(ctx context.Context, inactive int) error,
+	waitForBlock func(context.Context, uint64) error,
+) []error {
+	counter := newHeartbeatFailureCounter()
+	var errs []error
+	for i := 0; i < rounds; i++ {
+		action := newHeartbeatAction(
+			log.Logger("verif-c46"),
+			chain,
+			wallet{publicKey: walletPublicKey},
+			&verifC46HeartbeatSigner{signFn},
+			&HeartbeatProposal{},
+			counter,
+			&verifC46ClaimExecutor{claimFn},
+			startBlock,
+			expiryBlock,
+			waitForBlock,
+		)
+		errs = append(errs, action.execute())
+	}
+	return errs
+}
